@@ -146,6 +146,11 @@ def build_controlled():
             if rc != 0:
                 return False, "nvinstr %s failed:\n%s%s" % (f, so, se)
             mapping[os.path.join(REPO, f)] = outp
+        outp = os.path.join(d, "handler.go")
+        rc, so, se = run([os.path.join(BIN, "nvinstr"), "-time", os.path.join(REPO, "handler.go"), outp], timeout=120)
+        if rc != 0:
+            return False, "nvinstr -time handler.go failed:\n%s%s" % (so, se)
+        mapping[os.path.join(REPO, "handler.go")] = outp
         ov = overlay_json(mapping)
         rc, so, se = run(["go", "build", "-overlay", ov, "-o", os.path.join(BIN, "nvhc"), "./cmd/nvhc"], cwd=HARNESS, timeout=600)
         if rc != 0:
